@@ -198,6 +198,32 @@ def translate_string(repo, out):
     out.append(f"/-- `if (c == N)` : marker of a symbol outside the alphabet -/\ndef base64Invalid : Nat := {inv}\n")
     out.append(f"/-- `if (in[i] == '=') break;` -/\ndef base64Pad : Nat := {cexpr(pad, {})}\n")
 
+    # the switch (i & m): case k: statements `out[j] = E;` / `out[j++] |= E;`
+    sw = need(re.search(r"switch\s*\(\s*i\s*&\s*(0x[0-9a-fA-F]+|\d+)\s*\)\s*\{(.*?)\}\s*\}", code, re.S), "fromBase64 `switch (i & m)`")
+    out.append(f"/-- selector of `switch (i & m)` -/\ndef b64Phase (i : Nat) : Nat := i &&& {cexpr(sw.group(1), {})}\n")
+    cases = re.findall(r"case\s+(\d+)\s*:(.*?)break\s*;", sw.group(2), re.S)
+    shape = {"0": ["set"], "1": ["or++", "set"], "2": ["or++", "set"], "3": ["or++"]}
+    if [c for c, _ in cases] != ["0", "1", "2", "3"]:
+        raise TranslateError(f"fromBase64 switch: expected cases 0,1,2,3, found {[c for c, _ in cases]}")
+    for c, body in cases:
+        stmts = [x.strip() for x in body.split(";") if x.strip()]
+        got = []
+        for st in stmts:
+            m1 = re.match(r"out\s*\[\s*j\s*\]\s*=\s*(.*)$", st, re.S)
+            m2 = re.match(r"out\s*\[\s*j\s*\+\+\s*\]\s*\|=\s*(.*)$", st, re.S)
+            if m1:
+                got.append(("set", m1.group(1)))
+            elif m2:
+                got.append(("or++", m2.group(1)))
+            else:
+                raise TranslateError(f"fromBase64 switch case {c}: unexpected statement {st!r}")
+        if [k for k, _ in got] != shape[c]:
+            raise TranslateError(f"fromBase64 switch case {c}: expected statements {shape[c]}, found {[k for k, _ in got]}")
+        for k, e in got:
+            name = f"b64Or{c}" if k == "or++" else f"b64Set{c}"
+            what = f"`out[j++] |= E;` of case {c}" if k == "or++" else f"`out[j] = E;` of case {c}"
+            out.append(f"/-- {what}, for the symbol value `c` -/\ndef {name} (c : Nat) : Nat := {cexpr(e, {'c': 'c'})}\n")
+
     hbody = strip_comments(function_body(src, r"String\s+String::fromHex\s*\([^)]*\)\s*\{", "String::fromHex"))
     alpha = need(re.search(r'const\s+char\s*\*\s*hex\s*=\s*"([^"\\]*)"\s*;', hbody), "fromHex alphabet").group(1)
     hi = need(re.search(r"dest\s*\[\s*0\s*\]\s*=\s*hex\s*\[(.*?)\]\s*;", hbody), "fromHex dest[0]").group(1)
@@ -241,6 +267,37 @@ def translate_unicode(repo, out):
     fbody = strip_comments(function_body(src, r"static\s+uint32\s+fromString\s*\(\s*const\s+char\s*\*\s*ch\s*,\s*usize\s+len\s*\)\s*\{", "Unicode::fromString(const char*, usize)"))
     m = need(re.search(r"if\s*\(\s*\(\s*\*\s*\(const\s+uchar\s*\*\)\s*ch\s*&\s*(0x[0-9a-fA-F]+|\d+)\s*\)\s*==\s*0\s*\)", fbody), "fromString: `if((*(const uchar*)ch & M) == 0)`")
     out.append(f"/-- `fromString`: `if((*(const uchar*)ch & M) == 0) return *ch;` -/\ndef utf8AsciiMask : Nat := {int(m.group(1), 0)}\n")
+
+    # isValid(const char* ch, usize len): the continuation-byte tests of the switch(minLen)
+    vbody = strip_comments(function_body(src, r"static\s+bool\s+isValid\s*\(\s*const\s+char\s*\*\s*ch\s*,\s*usize\s+len\s*\)\s*\{", "Unicode::isValid(const char*, usize)"))
+    vcases = re.findall(r"case\s+(\d+)\s*:(.*?)break\s*;", vbody, re.S)
+    want = {"4": 3, "3": 2, "2": 1}
+    seen = {}
+    for c, body in vcases:
+        if c == "1":
+            if body.strip():
+                raise TranslateError("Unicode::isValid: case 1 is expected to be empty")
+            continue
+        m = need(re.match(r"\s*if\s*\((.*)\)\s*return\s+false\s*;\s*$", body, re.S), f"Unicode::isValid case {c}: `if(<test>) return false;`")
+        e = m.group(1)
+        e = re.sub(r"\(\s*\(\s*const\s+uchar\s*\*\s*\)\s*ch\s*\)\s*\[\s*(\d)\s*\]", r"b\1", e)
+        e = re.sub(r"\bch\s*\[\s*(\d)\s*\]", r"b\1", e)       # `ch[1] & M` with M <= 0xff: byte value
+        mm = need(re.match(r"^(.*)!=\s*(0x[0-9a-fA-F]+[uUlL]*|\d+[uUlL]*)\s*$", e.strip(), re.S), f"Unicode::isValid case {c}: `<expr> != <literal>`")
+        n = want.get(c)
+        if n is None:
+            raise TranslateError(f"Unicode::isValid: unexpected case {c}")
+        vm = {f"b{k}": f"b{k}" for k in range(1, n + 1)}
+        lhs = cexpr(mm.group(1).strip(), vm)
+        for k in range(1, n + 1):
+            if not re.search(rf"\bb{k}\b", lhs):
+                raise TranslateError(f"Unicode::isValid case {c}: byte {k} is not tested")
+        seen[c] = f"def validBad{c} ({' '.join(f'b{k}' for k in range(1, n + 1))} : Nat) : Bool := decide ({lhs} ≠ {cexpr(mm.group(2), {})})\n"
+    if sorted(seen) != ["2", "3", "4"]:
+        raise TranslateError(f"Unicode::isValid: expected tests for cases 2,3,4, found {sorted(seen)}")
+    need(re.search(r"default\s*:\s*return\s+false\s*;", vbody), "Unicode::isValid: `default: return false;`")
+    out.append("/-! `Unicode::isValid`: the test `if(<test>) return false;` of case 2 / 3 / 4 over the bytes ch[1..] -/\n")
+    for c in ("2", "3", "4"):
+        out.append(seen[c])
 
     # append(uint32 ch, String& str): the #else (UTF-8) branch
     abody = function_body(src, r"static\s+bool\s+append\s*\(\s*uint32\s+ch\s*,\s*String\s*&\s*str\s*\)\s*\{", "Unicode::append(uint32, String&)")
